@@ -26,7 +26,10 @@ class SingletonPoolSink(PoolSink):
       return AsyncResult.Complete()
 
     def TryGet():
-      self._Get()
+      # This runs on a new greenlet: every holder may have called Close()
+      # before it got scheduled, in which case nobody would close the sink.
+      if self._ref_count > 0:
+        self._Get()
       return True
     # We don't want to link _Get directly as it'll hold a reference
     # to the sink returned forever.
